@@ -199,7 +199,20 @@ def _ops(ops):
 
 
 # ------------------------------------------------------------------ save / load with SLnK variants
+_SL_COUNT = [0]
+
+
 def save_load(p, variant, sub=()):
+    """(every third call runs with the library's loggers at DEBUG: what is loaded does not depend on the logging configuration)"""
+    _SL_COUNT[0] += 1
+    if _SL_COUNT[0] % 3 == 0:
+        from .drivers.c11 import debug_logging
+        with debug_logging():
+            return _save_load(p, variant, sub)
+    return _save_load(p, variant, sub)
+
+
+def _save_load(p, variant, sub=()):
     """Save the real project, rewrite the optional SLnK chunks according to the variant through
     the TLV layer, load with the real reader; returns (outcome, loaded project or None)."""
     api, _, _ = _rv()
